@@ -123,8 +123,20 @@ void cmb_resource_start_recording(struct cmb_resource *rp)
 
     const struct cmi_resourcebase *rbp = (struct cmi_resourcebase *)rp;
     cmb_assert_release(rbp->cookie == CMI_INITIALIZED);
+    /*
+     * Resuming after a pause? The pause itself is not part of the history:
+     * the sample that closed the previous recording gets no duration.
+     */
+    struct cmb_timeseries *ts = &(rp->history);
+    const bool resuming = !rp->is_recording && (cmb_timeseries_count(ts) > 0u);
+
     rp->is_recording = true;
     record_sample(rp);
+
+    const uint64_t n = cmb_timeseries_count(ts);
+    if (resuming && (n >= 2u)) {
+        ts->wa[n - 2u] = 0.0;
+    }
 }
 
 void cmb_resource_stop_recording(struct cmb_resource *rp)
